@@ -24,7 +24,7 @@ shared.export(globals())
 
 # ------------------------------------------------------------------ the types judged by the reference model
 
-NAMES = ['any', 'int', 'float', 'complex', 'str', 'bytes', 'none', 'bool', 'lit', 'enum_s', 'enum_i',
+NAMES = ['any', 'int', 'float', 'complex', 'str', 'bytes', 'none', 'bool', 'lit', 'enum_s', 'enum_i', 'strsub',
          'list_int', 'seq_any', 'set_int', 'tuple_var', 'tuple_fix', 'tuple_lit', 'dict_si', 'dict_if', 'counter', 'ddict',
          'struct', 'union', 'opt_list', 'cond_pos', 'cond_rng', 'cond_len', 'cond_nested',
          'p1', 'p2', 'ph', 'pal', 'pt', 'pn', 'pi', 'list_p1', 'dict_p2']
@@ -48,7 +48,7 @@ TY.update(EXTRA)
 VOCAB = dict(shared.VOCAB)
 VOCAB.update({'dict_list': ('a', 'b', ''), 'mapping': ('a', 'b', ''), 'struct_nested': ('a', 'c', 'b'), 'opt_p1': ('a', 'b', 'zz'),
               'union_p': ('a', 'b', 'zz')})
-SMALL = set(shared.SMALLINT) | {'float', 'tuple_fix', 'dict_if', 'p1', 'pn', 'list_p1', 'opt_p1', 'union_p', 'struct_nested', 'pi'}
+SMALL = set(shared.SMALLINT) | {'float', 'strsub', 'tuple_fix', 'dict_if', 'p1', 'pn', 'list_p1', 'opt_p1', 'union_p', 'struct_nested', 'pi'}
 
 _rng = t.get_args(TYPES['cond_rng'])[1:]
 _len = t.get_args(TYPES['cond_len'])[1:]
